@@ -103,7 +103,7 @@ impl Prop for C06 {
         "model_checking"
     }
     fn rule(&self, _t: Tier) -> String {
-        "(a) every string of C01's character-class and line-template spaces (full input tries; states = strings) is read by both readers and, when both accept, the paragraphs / names / non-blank value lines are compared, as is lossy::Paragraph::from_str; (b) every C03 document (<= k layout deviations per skeleton) must be accepted by both and read identically; non-trivial = distinct case accepted by both readers with at least one field".into()
+        "(a) every string of C01's character-class and line-template spaces (full input tries; states = strings) is read by both readers and, when both accept, the paragraphs / names / non-blank value lines are compared, as is lossy::Paragraph::from_str; (b) every C03 document (<= k layout deviations per skeleton) must be accepted by both and read identically; (c) every single-line corruption (junk line inserted, colon deleted, indentation removed) of every k<=1 document: where both readers still accept, they must agree; non-trivial = distinct case accepted by both readers with at least one field".into()
     }
     fn bounds(&self, t: Tier) -> Value {
         json!({"string_spaces": deb822_space(t).describe(), "documents": "C03 generator, same k per skeleton"})
@@ -112,7 +112,7 @@ impl Prop for C06 {
         vec!["value lines are compared after splitting on LF/CR and dropping empty lines (the statement says 'non-blank value lines')".into()]
     }
     fn n_shards(&self, t: Tier) -> usize {
-        deb822_space(t).n_shards() + doc_shards(false).len()
+        deb822_space(t).n_shards() + doc_shards(true).len()
     }
     fn explore(&self, t: Tier, shard: usize, f: &mut dyn FnMut(&C06Case) -> Verdict) {
         let sp = deb822_space(t);
@@ -120,7 +120,7 @@ impl Prop for C06 {
             explore_strs(&sp, shard, &mut |c| f(&C06Case::Str(c.clone())));
             return;
         }
-        match doc_shards(false)[shard - sp.n_shards()] {
+        match doc_shards(true)[shard - sp.n_shards()] {
             DocShard::Base(sk) => kdev_shard(&menus(sk), k_for(t, sk), None, &mut |v| {
                 f(&C06Case::Doc(DocCase { skel: sk, v: v.to_vec(), junk: None, name_char: None }));
             }),
@@ -129,16 +129,40 @@ impl Prop for C06 {
                     f(&C06Case::Doc(DocCase { skel: sk, v: v.to_vec(), junk: None, name_char: None }));
                 }
             }),
-            DocShard::Reject(_) => {}
+            DocShard::Reject(sk) => {
+                // mutated documents: every single-line corruption of every k<=1 layout (most are rejected by both readers;
+                // where both still accept, they must agree)
+                let m = menus(sk);
+                let mut go = |v: &[usize]| {
+                    if let Some(d) = render(sk, v) {
+                        let n = d.text.split_inclusive('\n').count();
+                        for pos in 0..=n {
+                            for j in 0..crate::props::c03::N_CORRUPTIONS {
+                                if crate::props::c03::corrupt(&d.text, pos, j).is_some() {
+                                    f(&C06Case::Doc(DocCase { skel: sk, v: v.to_vec(), junk: Some((pos, j)), name_char: None }));
+                                }
+                            }
+                        }
+                    }
+                };
+                kdev_shard(&m, 1, None, &mut go);
+                for i in 0..m.len() {
+                    kdev_shard(&m, 1, Some(i), &mut go);
+                }
+            }
         }
     }
     fn check(&self, c: &C06Case, st: &mut Stats) -> Vec<Viol> {
         let before = st.outcomes.get("both-accept").copied().unwrap_or(0);
         let (vs, fresh) = match c {
             C06Case::Str(s) => (compare(&s.s, st, false), s.fresh && s.s.contains(':')),
-            C06Case::Doc(d) => match render(d.skel, &d.v) {
-                Some(doc) => (compare(&doc.text, st, true), true),
-                None => (vec![], false),
+            C06Case::Doc(d) => match (render(d.skel, &d.v), d.junk) {
+                (Some(doc), None) => (compare(&doc.text, st, true), true),
+                (Some(doc), Some((pos, j))) => match crate::props::c03::corrupt(&doc.text, pos, j) {
+                    Some(text) => (compare(&text, st, false), true),
+                    None => (vec![], false),
+                },
+                (None, _) => (vec![], false),
             },
         };
         let after = st.outcomes.get("both-accept").copied().unwrap_or(0);
@@ -164,7 +188,13 @@ impl Prop for C06 {
     fn snippet(&self, c: &C06Case, v: &Viol) -> String {
         let text = match c {
             C06Case::Str(s) => s.s.clone(),
-            C06Case::Doc(d) => render(d.skel, &d.v).map(|d| d.text).unwrap_or_default(),
+            C06Case::Doc(d) => {
+                let t = render(d.skel, &d.v).map(|d| d.text).unwrap_or_default();
+                match d.junk {
+                    Some((pos, j)) => crate::props::c03::corrupt(&t, pos, j).unwrap_or(t),
+                    None => t,
+                }
+            }
         };
         format!(
             "#[test]\nfn c06_replay() {{\n    use std::str::FromStr;\n    let text = {:?};\n    let a = deb822_lossless::Deb822::from_str(text);\n    let b = deb822_lossless::lossy::Deb822::from_str(text);\n    // clause {}: {}\n    println!(\"{{:?}} {{:?}}\", a.is_ok(), b);\n}}\n",
